@@ -55,11 +55,18 @@ def grammar_cases(depth, heads=HEADS, terms=TERMS, maxbody=2, with_sharp=True, n
     return cases, nstates, transitions
 
 
+IMAP3 = {"a": 0, "b": 1, "c": 2}
+
+
 def case_rules(case):
+    if case.get("ints"):
+        return [(h, tuple(IMAP3.get(y, y) for y in b)) for h, b in case["rules"]]
     return [(h, tuple(b)) for h, b in case["rules"]]
 
 
 def case_terms(case):
+    if case.get("ints"):
+        return {0, 1, 2}
     t = set(TERMS)
     for h, b in case["rules"]:
         for y in b:
